@@ -86,6 +86,48 @@ class Report:
             self.notes.append(s)
 
 
+class Only:
+    """View of a Report that records only selected rules of another pack.
+
+    Properties overlap (a record that cannot be re-decoded breaks the round trip
+    *and* the validity invariant *and* the size limit): a pack re-uses the rules
+    of a neighbouring pack that its own property rests on by running that pack
+    against this filtered view.  rules: {source rule name: name under which it
+    is recorded here}; keys: optional predicate on the instance key."""
+
+    def __init__(self, report, rules, keys=None):
+        self._r = report
+        self._rules = dict(rules) if isinstance(rules, dict) else {x: x for x in rules}
+        self._keys = keys
+        self.prop = report.prop
+        self.analysed_fns = report.analysed_fns
+        self.configs = report.configs
+        self.notes = report.notes
+        self.obligations = report.obligations
+        self.violations = report.violations
+
+    def _keep(self, rule, key):
+        return rule in self._rules and (self._keys is None or self._keys(rule, key))
+
+    def ob(self, rule, key, ok, desc, config=None, site=None, nontrivial=True):
+        if self._keep(rule, key):
+            return self._r.ob(self._rules[rule], key, ok, desc, config, site, nontrivial)
+        return None
+
+    def violate(self, rule, key, msg, fn=None, sp=None, config=None, path=None, detail=None):
+        if self._keep(rule, key):
+            return self._r.violate(self._rules[rule], key, msg, fn, sp, config, path, detail)
+        return None
+
+    def check(self, rule, key, ok, desc, msg=None, fn=None, sp=None, config=None, path=None, detail=None):
+        if self._keep(rule, key):
+            self._r.check(self._rules[rule], key, ok, desc, msg, fn, sp, config, path, detail)
+        return ok
+
+    def note(self, s):
+        self._r.note(s)
+
+
 class Ctx:
     """One configuration's facts + cached analyses."""
 
